@@ -307,3 +307,56 @@ M("C06", "dec-magic-masked-high-byte", C2, DEC, dec("    if not pt:\n" + RAISE_D
 T("C06", "twin-dec-magic-two-ordering-tests", C2, DEC, dec("    if not pt:\n" + RAISE_DEC, magic="    if metadata.magic < 0xBEEF or metadata.magic > 0xBEEF:\n" + MAGIC_TAIL))
 T("C06", "twin-dec-magic-full-mask", C2, DEC, dec("    if not pt:\n" + RAISE_DEC, magic="    if metadata.magic & 0xFFFFFFFF != 0xBEEF:\n" + MAGIC_TAIL))
 T("C06", "twin-dec-magic-ne-and-range-check", C2, DEC, dec("    if not pt:\n" + RAISE_DEC, magic="    if metadata.magic < 0 or metadata.magic != 0xBEEF:\n" + MAGIC_TAIL))
+
+# ================================================================================================ R8 well-formed metadata accepted
+# decrypt_metadata must accept every metadata encrypt_metadata produces.  The domain of well-formed metadata comes from the
+# C definition (size = 51 + len(info) in [51, 237], every other integer field any value of its width); tests of the
+# parsed fields are decided over that domain by the interval lemmas - an extra sanity check that is false on the whole
+# domain is silent, one that is true for part of it is a violation, one that cannot be evaluated is undecided (silent)
+RET = "    return metadata\n"
+SIZE_MSG = "        raise ValueError(f\"Invalid metadata size, got {metadata.size}\")\n"
+MAGIC_IF = "    if metadata.magic != 0xBEEF:\n        raise ValueError(f\"Invalid metadata magic, got {metadata.magic:08x}, expected 0xbeef\")\n"
+
+
+def sane(check):
+    return dec("    if not pt:\n" + RAISE_DEC, magic=MAGIC_IF + check + RET)
+
+
+# the size field counts from aes_rand on: the smallest value is 51 (not the 59 bytes of the whole fixed part)
+T("C06", "twin-dec-size-floor-exact", C2, DEC, sane("    if metadata.size < 51:\n" + SIZE_MSG))
+T("C06", "twin-dec-size-floor-total-length-unit", C2, DEC, sane("    if metadata.size + 8 < 59:\n" + SIZE_MSG))
+T("C06", "twin-dec-size-floor-default-struct-minus-header", C2, DEC, sane("    if metadata.size < len(BeaconMetadata()) - 8:\n" + SIZE_MSG))
+T("C06", "twin-dec-size-floor-module-constant", C2, DEC, sane("    if metadata.size < _MIN_SIZE_FIELD:\n" + SIZE_MSG) + "\n\n_MIN_SIZE_FIELD = len(BeaconMetadata().dumps()) - 2 * 4\n")
+T("C06", "twin-dec-size-floor-mirrored-local", C2, DEC, sane("    declared = metadata.size\n    if 51 > declared:\n" + SIZE_MSG))
+T("C06", "twin-dec-size-ceiling-above-rsa2048", C2, DEC, sane("    if metadata.size > 256 - 11 - 8:\n" + SIZE_MSG))
+T("C06", "twin-dec-size-positive-nesting", C2, DEC, sane("    if metadata.size >= 51:\n        return metadata\n" + SIZE_MSG.replace("        raise", "    raise")).replace(SIZE_MSG.replace("        raise", "    raise") + RET, SIZE_MSG.replace("        raise", "    raise")))
+# the plaintext of a well-formed metadata has size + 8 bytes (lemma s + a <op> s + b <=> a <op> b)
+T("C06", "twin-dec-size-vs-plaintext-length", C2, DEC, sane("    if metadata.size != len(pt) - 8:\n" + SIZE_MSG))
+T("C06", "twin-dec-size-vs-plaintext-length-moved-term", C2, DEC, sane("    if len(pt) < metadata.size + 8:\n" + SIZE_MSG))
+M("C06", "dec-size-vs-plaintext-length-wrong-unit", C2, DEC, sane("    if metadata.size != len(pt):\n" + SIZE_MSG), "C06.R8")
+M("C06", "dec-size-vs-plaintext-length-strict", C2, DEC, sane("    if len(pt) <= metadata.size + 8:\n" + SIZE_MSG), "C06.R8")
+# a test that computes with the plaintext is not evaluated over the domain: undecided, not an alarm
+T("C06", "twin-dec-plaintext-content-test-undecided", C2, DEC, sane("    if pt[:2] != b\"\\x00\\x00\":\n" + SIZE_MSG))
+M("C06", "dec-size-floor-total-length-shifted", C2, DEC, sane("    if metadata.size - 59 < 0:\n" + SIZE_MSG), "C06.R8")
+M("C06", "dec-size-floor-default-struct-dumps", C2, DEC, sane("    if metadata.size < len(BeaconMetadata().dumps()):\n" + SIZE_MSG), "C06.R8")
+M("C06", "dec-size-floor-off-by-one", C2, DEC, sane("    if metadata.size <= 51:\n" + SIZE_MSG), "C06.R8")
+M("C06", "dec-size-ceiling-rsa1024-only", C2, DEC, sane("    if metadata.size > 128 - 11 - 8:\n" + SIZE_MSG), "C06.R8")
+M("C06", "dec-size-positive-nesting-wrong-unit", C2, DEC, sane("    if metadata.size >= 59:\n        return metadata\n" + SIZE_MSG.replace("        raise", "    raise")).replace(SIZE_MSG.replace("        raise", "    raise") + RET, SIZE_MSG.replace("        raise", "    raise")), "C06.R8")
+M("C06", "dec-size-unconditional-reject", C2, DEC, sane("    if metadata.size >= 0:\n" + SIZE_MSG), "C06.R8")
+# the other fields take every value of their width
+M("C06", "dec-rejects-zero-pid", C2, DEC, sane("    if not metadata.pid:\n        raise ValueError(\"Invalid metadata, no process id\")\n"), "C06.R8")
+M("C06", "dec-rejects-unknown-major-version", C2, DEC, sane("    if metadata.ver_major not in (5, 6, 10):\n        raise ValueError(f\"Invalid metadata, unsupported Windows version {metadata.ver_major}\")\n"), "C06.R8")
+M("C06", "dec-rejects-high-port", C2, DEC, sane("    port = metadata.port\n    if port >= 0x8000:\n        raise ValueError(f\"Invalid metadata, port {port} out of range\")\n"), "C06.R8")
+M("C06", "dec-asserts-flag-range", C2, DEC, sane("    assert metadata.flag < 0x10, \"unknown flag bits\"\n"), "C06.R8")
+T("C06", "twin-dec-port-range-is-whole-width", C2, DEC, sane("    if metadata.port > 0xFFFF or metadata.flag < 0:\n        raise ValueError(\"Invalid metadata, field out of range\")\n"))
+# the plaintext of a well-formed metadata has at least the 59 fixed bytes; a check of the blob against the key is not
+# evaluated (undecided, silent); a rejection that a local handler translates is still a rejection
+T("C06", "twin-dec-plaintext-shorter-than-fixed-part", C2, DEC, dec("    if not pt or len(pt) < 59:\n" + RAISE_DEC))
+T("C06", "twin-dec-blob-length-vs-key-undecided", C2, DEC, dec("    if not pt:\n" + RAISE_DEC, head="    if len(encrypted_metadata) != private_key.size_in_bytes():\n" + RAISE_DEC.replace("        ", "        ", 1) + "    cipher = PKCS1_v1_5.new(private_key)\n    pt = cipher.decrypt(encrypted_metadata, None)\n"))
+M("C06", "dec-plaintext-min-length-counts-rsa-padding", C2, DEC, dec("    if not pt or len(pt) < 59 + 11:\n" + RAISE_DEC), "C06.R8")
+M("C06", "dec-size-check-inside-parse-try", C2, DEC,
+  dec("    if not pt:\n" + RAISE_DEC, parse="    try:\n        metadata = BeaconMetadata(pt)\n        if metadata.size < 59:\n            raise EOFError(\"truncated\")\n    except EOFError:\n"
+      "        raise ValueError(\"Failed to parse decrypted metadata, not enough data\")\n"), "C06.R8")
+T("C06", "twin-dec-size-check-inside-parse-try", C2, DEC,
+  dec("    if not pt:\n" + RAISE_DEC, parse="    try:\n        metadata = BeaconMetadata(pt)\n        if metadata.size < 51:\n            raise EOFError(\"truncated\")\n    except EOFError:\n"
+      "        raise ValueError(\"Failed to parse decrypted metadata, not enough data\")\n"))
